@@ -125,3 +125,18 @@ Example ex_split_mode_a :
      (split_stage gi ALL [26481; 20140; 37117] Split.ModeA path_tokyoto))
   = (Some [(0, 2, 2); (2, 3, 3)], Some [(0, 2, 2); (2, 3, 3)]).
 Proof. vm_compute. reflexivity. Qed.
+
+(* ---------- the Python entry point create(fields=F, projection=P) ---------- *)
+From SudachiVerif Require Import Model.PyProjection.
+(* non-vacuity: fields={pos}, projection="reading" on 東 (reading ヒガシ): the reading is loaded and projected *)
+Example ex_create_reading :
+  loaded_subset 4 (Some PReading) = 37%N /\
+  exists iS, get_word_info lx true 0 (loaded_subset 4 (Some PReading)) = Some iS /\
+             project [] PReading (view_of [26481] iS) = Some [12498; 12460; 12471]%N.
+Proof. split; [vm_compute; reflexivity|]. eexists. split; vm_compute; reflexivity. Qed.
+(* refuted: were the required subset of the passed projection NOT OR-ed in (the tokenizer loads normalize F only), the
+   projected surface is not the reading *)
+Example C11_create_without_required_subset_refuted :
+  exists iS, get_word_info lx true 0 (normalize 4) = Some iS /\
+             project [] PReading (view_of [26481] iS) <> Some [12498; 12460; 12471]%N.
+Proof. eexists. split; [vm_compute; reflexivity|]. vm_compute. discriminate. Qed.
